@@ -51,7 +51,7 @@ Section Wf.
     wf_api : (m_api (c_meta c) = "v2") \/ (m_api (c_meta c) = "v1" /\ m_deps (c_meta c) = "" /\ c_lock c = None);
     wf_name : wf_cname (m_name (c_meta c)) = true;
     wf_values : vals_fold parse_values None (raw_values c) = Some (c_values c);
-    wf_schema : match c_schema c with Some s => json_valid s = true /\ s <> "" | None => True end;
+    wf_schema : match c_schema c with Some s => json_valid s = true | None => True end;
     wf_templates : forallb wf_template (c_templates c) = true;
     wf_files : forallb wf_file (c_files c) = true;
     wf_nodeps : c_deps c = [] }.
